@@ -650,7 +650,9 @@ pub fn c15_format(reg: &Registry, cfg: &Cfg, out: &mut Out) {
         for tu in 0..tt.n_units() {
             for pu in 0..pt.n_units() {
                 salt += 1;
-                for pm in [one(), small_int(100), from_parts_dec(false, 25, -1), from_parts_dec(false, 10, -1), from_parts_dec(false, 1000, -3)] {
+                // per-multiples: one (in three spellings), above one, BELOW one, negative, zero
+                for pm in [one(), small_int(100), from_parts_dec(false, 25, -1), from_parts_dec(false, 10, -1), from_parts_dec(false, 1000, -3),
+                           from_parts_dec(false, 5, -1), from_parts_dec(false, 25, -2), from_parts_dec(false, 1, -3), small_int(-4), small_int(-1), zero()] {
                     let ta = amounts[salt % amounts.len()];
                     out.ev("Rate", (rp.f)("fmt", ta, tu, pm, pu, zero(), 0));
                 }
